@@ -470,6 +470,25 @@ func C17(c *Ctx) {
 					}
 				}
 			})
+			if del == nil && cls != nil {
+				// the removal is in a helper of the function that closes (cancel -> unfile -> take)
+				inLa := map[*ssa.Function]bool{}
+				for _, h := range la.Fns {
+					inLa[h] = true
+				}
+				for _, h := range pkgClosure(f) {
+					if h == f || h == G || !inLa[h] {
+						continue
+					}
+					ssau.Instrs(h, func(in ssa.Instruction) {
+						if ci, ok := in.(ssa.CallInstruction); ok && del == nil {
+							if b, isB := ci.Common().Value.(*ssa.Builtin); isB && b.Name() == "delete" && ti.isMap(ci.Common().Args[0]) {
+								del = in
+							}
+						}
+					})
+				}
+			}
 			if del == nil || cls == nil {
 				continue // cancel = the function that closes the entry's control channel
 			}
